@@ -64,6 +64,9 @@ func ghostLayout(t types.Type) ([]string, bool) {
 	if isNamed(t, "container/list", "List") {
 		return []string{"int"}, true // an integer naming the list's abstract state (see spec/list.spec)
 	}
+	if isNamed(t, "bytes", "Reader") {
+		return []string{"int"}, true // number of unread bytes
+	}
 	if isNamed(t, "bytes", "Buffer") {
 		return []string{"int"}, true // number of unread bytes held (append-only writer / consuming reader)
 	}
